@@ -3,6 +3,7 @@
 package main
 
 import (
+	"errors"
 	"flag"
 	"fmt"
 	"math/rand"
@@ -36,6 +37,8 @@ type dbSuite struct {
 	scratch  string
 	usedKeys map[string][][]byte
 	nkeys    int
+	faultAt  int // injected write error: index of the data-file write of the next commit that fails (-1: none)
+	faultCnt int
 	bigTx    int // kvbig: transactions begun so far
 	bigLoad  int // kvbig: number of leading bulk-load transactions
 	openLine string
@@ -46,6 +49,7 @@ type dbSuite struct {
 	imgLeft  int
 	imgNext  int
 	armedGen bool
+	faultGen bool
 	mergeNext bool
 	// power-loss shadow: content that has reached stable storage (sync'ed), pending writes per file
 	durable map[string][]byte
@@ -80,7 +84,16 @@ func init() {
 
 var rxSet = []string{".*", "^b", "c$", "^$", "["}
 
+var errInjected = errors.New("injected write error")
+
 func (s *dbSuite) hook(op, path string, off int64, data []byte) error {
+	if op == "write" && s.faultAt >= 0 && strings.HasSuffix(path, ".dat") {
+		s.faultCnt++
+		if s.faultCnt-1 == s.faultAt {
+			s.faultAt = -1
+			return errInjected
+		}
+	}
 	if op == "lock-req" {
 		s.hookMu.Lock()
 		s.lockIDs = append(s.lockIDs, uint64(off))
@@ -265,6 +278,7 @@ func (s *dbSuite) newCase(id int) {
 	s.usedKeys = map[string][][]byte{}
 	s.nkeys = 0
 	s.bigTx, s.bigLoad = 0, 3+id%9
+	s.faultAt = -1
 	s.openLine = ""
 	s.interned = nil
 	s.images, s.imgNext, s.armedGen, s.capture, s.armed, s.mergeNext = nil, 0, false, false, false, false
@@ -457,11 +471,15 @@ func (s *dbSuite) exec(line string) string {
 		}
 		s.tx = t
 		return "ok " + strconv.FormatUint(t.VerifID(), 10)
+	case "fault":
+		s.faultAt, s.faultCnt = atoi(f[1]), 0
+		return "ok"
 	case "commit":
 		if s.tx == nil {
 			return "err"
 		}
 		var res string
+		defer func() { s.faultAt = -1 }()
 		if s.armed {
 			s.armed = false
 			s.startCapture()
@@ -899,6 +917,12 @@ func (s *dbSuite) gen(r *rand.Rand, step int) string {
 			s.images = nil
 			return "capture"
 		}
+		if (s.profile == "mixed" || s.profile == "kv" || s.profile == "crash") && s.txW && !s.armedGen && !s.faultGen && r.Intn(7) == 0 {
+			// the next commit's k-th record write fails (nothing reaches the file)
+			s.faultGen = true
+			return fmt.Sprintf("fault %d", r.Intn(4))
+		}
+		s.faultGen = false
 		s.inTx = false
 		s.pendObs = true
 		if !s.armedGen && r.Intn(8) == 0 {
